@@ -100,23 +100,27 @@ func ClientFlight(secret []byte, tt pb.TransportType, params proto.Message) ([]b
 	return nil, fmt.Errorf("no client for %v", tt)
 }
 
-// Obfs4FlightOfLen runs the real obfs4 client until it produces a first flight of exactly want bytes (the client
-// draws its padding length uniformly, so a given length - in particular the maximum, 8192 - comes up about once
-// in 8000 handshakes). The flight is one Write of the client; it is captured with one Read. Returns nil if no such
-// flight came up within maxTries.
-func Obfs4FlightOfLen(secret []byte, want, maxTries int) []byte {
-	k, err := core.GenSharedKeys(4, secret, 0)
-	if err != nil {
-		return nil
+// Obfs4FlightsOfLens runs the real obfs4 client until it has produced a first flight of each wanted length (the
+// client draws its padding length uniformly from 77..8128, so a given length - in particular the minimum, 141, and
+// the maximum, 8192 - comes up about once in 8000 handshakes). The flight is one Write of the client; it is captured
+// with one Read. Lengths that did not come up within maxTries are missing from the result.
+func Obfs4FlightsOfLens(secret []byte, wants []int, maxTries int) map[int][]byte {
+	out := map[int][]byte{}
+	want := map[int]bool{}
+	for _, w := range wants {
+		want[w] = true
 	}
 	buf := make([]byte, 16384)
-	for i := 0; i < maxTries; i++ {
+	for i := 0; i < maxTries && len(out) < len(want); i++ {
 		ct := &obfs4.ClientTransport{}
 		_ = ct.SetParams(&pb.GenericTransportParams{RandomizeDstPort: proto.Bool(false)})
 		_ = ct.Prepare(context.Background(), nil)
-		kk, _ := core.GenSharedKeys(4, secret, 0)
+		kk, err := core.GenSharedKeys(4, secret, 0)
+		if err != nil {
+			return out
+		}
 		if err := ct.PrepareKeys(StationPub, secret, kk.TransportReader); err != nil {
-			return nil
+			return out
 		}
 		c1, c2 := net.Pipe()
 		done := make(chan struct{})
@@ -126,10 +130,14 @@ func Obfs4FlightOfLen(secret []byte, want, maxTries int) []byte {
 		c2.Close()
 		c1.Close()
 		<-done
-		if n == want {
-			return append([]byte{}, buf[:n]...)
+		if want[n] && out[n] == nil {
+			out[n] = append([]byte{}, buf[:n]...)
 		}
 	}
-	_ = k
-	return nil
+	return out
+}
+
+// Obfs4FlightOfLen is Obfs4FlightsOfLens for one length.
+func Obfs4FlightOfLen(secret []byte, want, maxTries int) []byte {
+	return Obfs4FlightsOfLens(secret, []int{want}, maxTries)[want]
 }
